@@ -27,6 +27,9 @@ RULE = ('sampled (Hypothesis-decoded): random acyclic models (dependency '
         'focus cell has dependency depth >= 2 or depends on a range or a '
         'name; distinct by (model, focus, changes).')
 ASSUMPTIONS = [
+    'histories: sets/evaluations on the original BEFORE the extraction, '
+    'changes applied to both afterwards (optionally without an evaluation '
+    'in between), a second extraction from the changed original',
     'only inputs that exist in the extract are changed (others cannot '
     'influence the focus)',
 ]
@@ -117,8 +120,29 @@ def _build(d):
         changes.append([d.choice(in_names), d.choice([11, 0.5, 200])])
         if d.pick(2):
             focus.append(d.choice(in_names))
+    # a history on the ORIGINAL model before the extraction (sets and
+    # evaluations), and whether the first comparison is skipped so that the
+    # changes meet an extract nobody has evaluated yet
+    prehist = []
+    for _ in range(d.pick(4)):
+        if d.pick(2):
+            prehist.append(['set', d.choice(inputs),
+                            d.choice([0, 1, -3, 2.5, 10, 100, 7])])
+        elif model['order']:
+            prehist.append(['eval', d.choice(model['order'])])
+    nsets = sum(1 for op in prehist if op[0] == 'set')
+    if nsets and d.pick(2):
+        # mirrored history: evaluate after the sets, and afterwards as many
+        # changes as there were sets before (counters that restart in the
+        # extract meet the same numbers again)
+        if model['order']:
+            prehist.append(['eval', d.choice(model['order'])])
+        while len(changes) < nsets:
+            changes.append([d.choice(inputs), d.choice([3, 8, 50])])
+        changes = changes[:nsets]
     return {'model': model, 'focus': sorted(set(focus)), 'pre': bool(
-        d.pick(2)), 'changes': changes, 'names': names}
+        d.pick(2)), 'changes': changes, 'names': names, 'prehist': prehist,
+        'skipfirst': d.pick(3) == 0, 'again': d.pick(2) == 0}
 
 
 def strategy(tier):
@@ -220,6 +244,16 @@ def judge(case):
         if case['pre']:
             for a in model['order']:
                 ev.evaluate(a)
+        inputs = dict(model['inputs'])
+        for op in case.get('prehist') or []:
+            if op[0] == 'set':
+                ev.set_cell_value(op[1], op[2])
+                inputs[op[1]] = op[2]
+            else:
+                try:
+                    ev.evaluate(op[1])
+                except Exception:  # noqa: BLE001 - judged by C04/C07
+                    pass
     except Exception as err:  # noqa: BLE001
         t = exc_tag(err)
         res.fail('compile-exception:%s:%s' % (t[1], t[2]), 'model', t)
@@ -273,9 +307,10 @@ def judge(case):
         res.fail('closure-not-extracted:%s' % cls, need, missing, focus)
         return res
     ev2 = xl.Evaluator(ex)
-    inputs = dict(model['inputs'])
+    evs = {'ex': ev2}
 
-    def compare(stage):
+    def compare(stage, which='ex'):
+        ev2 = evs[which]
         for f, a in zip(focus, faddr):
             try:
                 o1 = norm(ev.evaluate(f))
@@ -301,7 +336,7 @@ def judge(case):
                 res.fail(b, o1, o2, [stage, f, focus])
                 return False
         return True
-    if not compare('before-changes'):
+    if not case.get('skipfirst') and not compare('before-changes'):
         return res
     for a, v in changes:
         addr = names[a]['addr'] if a in names else a
@@ -316,5 +351,30 @@ def judge(case):
             res.fail('set-in-extract-not-applied:%s' % (
                 'by-name' if a in names else 'by-address'), g1, g2, [a, v])
             return res
-    compare('after-changes')
+    if not compare('after-changes'):
+        return res
+    if case.get('again'):
+        # a SECOND extraction from the same original, which has moved on
+        # since the first: it must show the current state and be a model of
+        # its own (a set in it reaches neither the original nor the first)
+        try:
+            ex2 = xl.ModelCompiler.extract(m, focus=list(case['focus']))
+        except Exception as err:  # noqa: BLE001
+            t = exc_tag(err)
+            res.fail('extract-exception:%s:%s:second' % (t[1], t[2]),
+                     'extracted model', t, focus)
+            return res
+        evs['ex2'] = xl.Evaluator(ex2)
+        if not compare('second-extraction', 'ex2'):
+            return res
+        ins = sorted(a for a in model['inputs'] if a in ex2.cells
+                     and a in ex.cells)
+        if ins:
+            a = ins[0]
+            g0 = norm(ev.get_cell_value(a))
+            evs['ex2'].set_cell_value(a, 424242)
+            g1 = norm(ev.get_cell_value(a))
+            g2 = norm(evs['ex'].get_cell_value(a))
+            if g1 != g0 or g2 != g0:
+                res.fail('extractions-share-cells', g0, [g1, g2], a)
     return res
